@@ -46,7 +46,7 @@ OldV == {0, 1, 2}
 NewV == {0, 1, 3, 4}
 CapsFew == {{"report-status"}, {"report-status", "atomic"}, AllCaps}
 \* capability sets without report-status (the pusher is told nothing) and the same with it
-CapsQuiet == {{}, {"atomic", "delete-refs"}, {"side-band-64k"}}
+CapsQuiet == {{}, {"atomic", "delete-refs"}}
 CapsQuietTwin == {c \cup {"report-status"} : c \in CapsQuiet}
 CapsMC == {{}, {"report-status"}, {"report-status", "atomic"}}
 CapsRS == {{"report-status"}, {"report-status", "atomic"}}
